@@ -54,12 +54,14 @@ class LazyValues(dict):
         self.env = env
 
     def __contains__(self, k):
-        return dict.__contains__(self, k) or self.env.has(k)
+        return dict.__contains__(self, k) or self.env.has(k) or k in getattr(self.R, 'olds', {})
 
     def __getitem__(self, k):
         if dict.__contains__(self, k):
             return dict.__getitem__(self, k)
-        return self.env.lookup(k)
+        if self.env.has(k):
+            return self.env.lookup(k)
+        return self.R.olds[k]        # old_<param>: entry value of a modified parameter of the target
 
 
 def loop_contract(R, node):
@@ -170,7 +172,7 @@ def exec_while(R, node, env):
         R.exec_block(node.orelse, env)
         return
     kinds = c.loop_kinds.get(o, {})
-    mod = sorted(assigned_names(node.body))
+    mod = sorted(assigned_names(node.body) | set(c.loop_modifies.get(o, [])))
     for nm in mod:
         to_symbolic(R, env, nm, kinds)
     check_invs(R, c, invs, env, {}, 'entry')
@@ -212,7 +214,8 @@ def exec_for(R, node, env):
         raise OutOfReach('for loop over a symbolic collection needs an invariant (loop %s of %s)' % (
             o, R.frames[-1].fv.qualname if R.frames else '?'))
     kinds = c.loop_kinds.get(o, {})
-    mod = sorted(assigned_names(node.body) | assigned_names([ast.Assign(targets=[node.target], value=None)]))
+    mod = sorted(assigned_names(node.body) | assigned_names([ast.Assign(targets=[node.target], value=None)]) |
+                 set(c.loop_modifies.get(o, [])))
     tnames = assigned_names([ast.Assign(targets=[node.target], value=None)])
     for nm in mod:
         if nm not in tnames:
@@ -332,6 +335,7 @@ def summarise(R, it):
     n_trace = len(R.trace)
     n_fresh = R.fresh_n
     R.solver.push()
+    R.summarising = getattr(R, 'summarising', 0) + 1
     try:
         if B.is_set(coll):
             h = R.fresh(coll.kind[1], '_e')
@@ -360,6 +364,7 @@ def summarise(R, it):
             raise OutOfReach('branching inside a comprehension over a symbolic collection')
         s.facts = R.pc[n0 + 1:n1] + [z3.Implies(s.conds, f) for f in R.pc[n1 + 1:]]
     finally:
+        R.summarising -= 1
         R.solver.pop()
         del R.pc[n0:]
     s.fresh_range = (n_fresh, R.fresh_n)
@@ -444,7 +449,49 @@ def quantify(R, it, which):
     return ZV(r, 'bool')
 
 
+def comprehension_as_loop(R, it, target, c, k, invs):
+    """A comprehension whose element expression has side effects (a callee that modifies an object):
+    executed like a for-loop over the collection with the contract's comp_invariant<k>.  Ghosts for the
+    invariant: _done (elements processed), _all (the collection), _res (results so far, a set)."""
+    node = it.node
+    if len(node.generators) != 1 or node.generators[0].ifs:
+        raise OutOfReach('stateful comprehension with filters / several generators')
+    gen = node.generators[0]
+    coll = R.eval(gen.iter, it.env)
+    if not B.is_set(coll):
+        raise OutOfReach('stateful comprehension over %r (only sets are supported)' % (coll,))
+    env = type(it.env)(it.env.module, it.env, it.env.cls)
+    ek = coll.kind[1]
+    rkind = c.loop_kinds.get(('comp', k), None) or ('set', ek)
+    empty_in = z3.EmptySet(R.S.sort_of(ek))
+    empty_res = z3.EmptySet(R.S.sort_of(rkind[1]))
+    check_invs(R, c, invs, env, {'_done': ZV(empty_in, coll.kind), '_all': coll, '_res': ZV(empty_res, rkind)},
+               'entry')
+    for nm in c.comp_modifies.get(k, []):
+        havoc_var(R, env, nm, {})
+    done = R.fresh(coll.kind, '_done')
+    res = R.fresh(rkind, '_res')
+    R.assume(z3.IsSubset(done.e, coll.e))
+    check_invs(R, c, invs, env, {'_done': done, '_all': coll, '_res': res}, 'assume', assume=True)
+    if R.choose(done.e != coll.e):
+        x = R.fresh(ek, '_x')
+        R.assume(z3.And(z3.IsMember(x.e, coll.e), z3.Not(z3.IsMember(x.e, done.e))))
+        R.assign(gen.target, x, env)
+        v = R.eval(node.elt, env)
+        res2 = ZV(z3.SetAdd(res.e, R.z(v, rkind[1])), rkind)
+        check_invs(R, c, invs, env, {'_done': ZV(z3.SetAdd(done.e, x.e), coll.kind), '_all': coll, '_res': res2},
+                   'preserved')
+        raise PathEnd('comprehension body')
+    return res
+
+
 def comprehension(R, it, target):
+    fr = R.frames[-1] if R.frames else None
+    if fr is not None and fr.contract is not None and not R.spec_mode:
+        k = fr.comp_ord.get(id(it.node))
+        invs = fr.contract.comp_invariants.get(k)
+        if invs is not None:
+            return comprehension_as_loop(R, it, target, fr.contract, k, invs)
     s = summarise(R, it)
     node = it.node
     gen = node.generators[0]
